@@ -88,6 +88,10 @@ class Prop(common.PropertyCheck):
         for _ in range(self.budget(12, 150)):
             yield {'cont': 'sample', 'D': rng.randrange(10, 14), 'N': rng.choice([1, 5]), 'form': rng.choice(['none', 'list', 'scalar']), 'seed': rng.randrange(1 << 30),
                    'at': 'none', 'ag': rng.choice(['none', 'partial']), 'res': 'none', 'bad': None, 'dt': rng.choice(['I', 'F'])}
+        # files of FlowJo Collector's Edition: the gains are recorded in CytekPnnG (two digits) instead of $PnG
+        for i in range(self.budget(10, 100)):
+            yield {'cont': 'sample', 'D': [12, 3, 10, 5, 11][i % 5], 'N': rng.choice([1, 5]), 'form': ['none', 'list', 'scalar'][i % 3], 'seed': rng.randrange(1 << 30),
+                   'at': 'none', 'ag': 'none', 'res': 'none', 'bad': None, 'dt': 'I', 'cytek': True, 'lin': i % 2 == 0}
         for _ in range(self.budget(1, 5)):
             yield {'k': 'big', 'n': (1 << 20) * rng.choice([1, 2]) + rng.randrange(1, 5000), 'seed': rng.randrange(1 << 30)}
 
@@ -114,6 +118,12 @@ class Prop(common.PropertyCheck):
         if case['cont'] == 'sample':
             spec = samples.spec_rich(r, N=N, D=D, datatype=case.get('dt', 'I'), res=[256, 256, 1000][:D] if case.get('many') else None,
                                      log_channels=[0, 1, 2] if case.get('many') else None)
+            if case.get('cytek'):
+                if case.get('lin'):
+                    spec['pne'] = {k: '0,0' for k in spec['pne']}
+                gains = ['2', '0.5', '8', '2.5', '4', '1.0']
+                spec['extra'] = [kv for kv in spec['extra'] if not kv[0].endswith('G')] + [['CREATOR', 'FlowJoCollectorsEdition 7.5.110.7']] + [
+                    ['CytekP%02dG' % (c + 1), gains[(c + case['seed']) % len(gains)]] for c in range(D) if (c + case['seed']) % 4 != 1]
             d, _ = samples.load(spec, name='c03.fcs')
             names = list(d.channels)
             # the settings as the file records them (independent of the loader)
@@ -125,6 +135,8 @@ class Prop(common.PropertyCheck):
                     a1 = 1.0
                 fat.append([bits(a0), bits(a1)])
                 g = ex.get('$P%dG' % (c + 1))
+                if g is None and case.get('cytek'):
+                    g = ex.get('CytekP%02dG' % (c + 1))
                 fg.append(None if g is None else bits(float(g)))
             self._file_meta = {'ampType': fat, 'gain': fg, 'res': [bits(float(x)) for x in spec['ranges']]}
             if case.get('presl'):
